@@ -175,6 +175,8 @@ def task_bounded_vector(I, seed, k, n):
                 light = None
                 dark = dark if ckw else None
             opts = dict(SVG_OPTS[rnd.randrange(len(SVG_OPTS))]) if kind == 'svg' else {}
+            if kind == 'tex' and rnd.random() < 0.6:
+                opts['unit'] = rnd.choice(('mm', 'cm', 'pt', 'in'))
             if kind == 'pdf' and rnd.random() < 0.3:
                 opts['compresslevel'] = 0
             done += 1
@@ -198,6 +200,11 @@ def _one(I, RV, qr, kind, scale, border, ckw, dark, light, opts):
         probs = RV.check_modules([list(r) for r in qr.matrix], vec, scale, b, dark=dark, light=lt)
         if opts.get('omitsize'):
             probs = [p for p in probs if 'page' not in p.lower() or 'cover' in p.lower()]
+        if kind == 'tex':
+            # the PGF picture is written in the requested unit (default pt)
+            want_unit = opts.get('unit') or 'pt'
+            if vec.info.get('unit') != want_unit or vec.info.get('units'):
+                probs.append('coordinates use unit %r (%r), requested %r' % (vec.info.get('unit'), vec.info.get('units'), want_unit))
         if kind == 'svg' and 'title' in opts:
             if (vec.info.get('title'), vec.info.get('desc')) != (opts['title'], opts['desc']):
                 probs.append('title / desc %r, expected %r' % ((vec.info.get('title'), vec.info.get('desc')), (opts['title'], opts['desc'])))
@@ -227,13 +234,18 @@ def task_colour_values(I):
     import segno.writers as W
     from spec import readers_vector as RV
     rp = dict(fn='replay_colour_values')
+    def alpha(v, as_float):
+        try:
+            return W._alpha_value(v, as_float)
+        except Exception as ex:
+            return repr(ex)
     for a in range(256):
-        got = W._alpha_value(a, True)
+        got = alpha(a, True)
         I.ground('C10.colour.alpha_0_255_as_float_is_a_over_255', isinstance(got, float) and abs(got - a / 255.0) <= 0.005, witness=dict(alpha=a, got=got, want=round(a / 255.0, 4)), replay=rp)
-        I.ground('C10.colour.alpha_0_255_as_int_is_unchanged', W._alpha_value(a, False) == a, witness=dict(alpha=a), replay=rp)
+        I.ground('C10.colour.alpha_0_255_as_int_is_unchanged', alpha(a, False) == a, witness=dict(alpha=a, got=alpha(a, False)), replay=rp)
     for k in range(101):
         f = k / 100.0
-        I.ground('C10.colour.alpha_float_is_unchanged_resp_times_255', W._alpha_value(f, True) == f and W._alpha_value(f, False) == int(round(f * 255.0)), witness=dict(alpha=f), replay=rp)
+        I.ground('C10.colour.alpha_float_is_unchanged_resp_times_255', alpha(f, True) == f and alpha(f, False) == int(round(f * 255.0)), witness=dict(alpha=f, got=(alpha(f, True), alpha(f, False))), replay=rp)
     hexd = '0123456789abcdef'
     bad = None
     for r in range(16):
@@ -271,10 +283,28 @@ def task_colour_values(I):
                 back = RV.parse_color(w)
                 if tuple(back)[:3] != tuple(vals):
                     bad = (tuple(vals), w)
+    # every combination of channels with equal / unequal / mixed hexadecimal digits (the short #RGB form is only valid for three doubled digits)
+    pats = (0x00, 0x0a, 0xa0, 0xaa, 0x11, 0x1a, 0xa1, 0xab, 0xff, 0xd2, 0xb4, 0x8c)
+    for r_ in pats:
+        for g_ in pats:
+            for b_ in pats:
+                for css3 in (True, False):
+                    for opt in (True, False):
+                        try:
+                            w = W._color_to_webcolor((r_, g_, b_), allow_css3_colors=css3, optimize=opt)
+                            if tuple(RV.parse_color(w))[:3] != (r_, g_, b_):
+                                bad = ((r_, g_, b_), w)
+                        except Exception as ex:
+                            bad = ((r_, g_, b_), repr(ex))
     I.ground('C10.colour.webcolor_of_a_tuple_parses_back_to_the_tuple', bad is None, witness=bad, replay=rp)
     bad = None
     for a in range(256):
-        w = W._color_to_webcolor((10, 20, 30, a), allow_css3_colors=True)
+        try:
+            w = W._color_to_webcolor((10, 20, 30, a), allow_css3_colors=True)
+            w2 = W._color_to_webcolor((10, 20, 30, a), allow_css3_colors=False)
+        except Exception as ex:
+            bad = (a, repr(ex))
+            continue
         if a == 255:
             ok = tuple(RV.parse_color(w))[:3] == (10, 20, 30)
         else:
@@ -283,7 +313,6 @@ def task_colour_values(I):
             ok = tuple(back)[:3] == (10, 20, 30) and abs(alpha - a / 255.0) <= 0.005
         if not ok:
             bad = (a, w)
-        w2 = W._color_to_webcolor((10, 20, 30, a), allow_css3_colors=False)
         if a != 255:
             if isinstance(w2, tuple):
                 ok2 = tuple(RV.parse_color(w2[0]))[:3] == (10, 20, 30) and abs(float(w2[1]) - a / 255.0) <= 0.005
